@@ -153,8 +153,12 @@ def _merge_sites(ctx, prog):
         if g is None:
             continue
         oks = [bb for bb, k, e in g.exits() if k == "ok"]
-        good = len(oks) >= 1 and all(any(re.match(r"^\(\w+::len\(self\.groups\) Eq 1\)$", str(c)) and t for c, t in g.bool_guards(bb)) for bb in oks)
-        ctx.ob("parallel-guard:ParallelGroup::%s" % nm, good, "ParallelGroup::%s returns Some only under groups.len() == 1" % nm, where=g.where())
+        # the semantic fact: the number of groups == 1 holds at every Some exit — established by a length comparison
+        # (== / != with either polarity) or by a one-element slice pattern (PtrMetadata of the slice == 1)
+        LEN = r"^(\w+::len\(self\.groups\)|len\(self\.groups\)|PtrMetadata\((\w+::(as_slice|as_mut_slice|deref|deref_mut|as_ref|as_mut)\()?self\.groups\)?\))$"
+        good = len(oks) >= 1 and all(A.has_fact(A.cmp_facts(g, bb), "==", LEN, r"^1$") for bb in oks)
+        ctx.ob("parallel-guard:ParallelGroup::%s" % nm, good, "ParallelGroup::%s returns Some only where groups.len() == 1 holds (%s)" % (
+            nm, [[(o, str(a)[:50], str(b)) for o, a, b in A.cmp_facts(g, bb) if b is not None] for bb in oks]), where=g.where())
     for nm, ty in (("AtomicGroup", "AtomicGroup"), ("ParallelGroup", "ParallelGroup")):
         g = ctx.fn(r"gmsol_solana_utils::instruction_group::%s::is_mergeable" % nm)
         if g is not None:
